@@ -45,6 +45,15 @@ static const char *errname(int e) {
   }
 }
 
+/* keys are not NUL-terminated: never atoi() them */
+static int parse_num(const char *p, size_t n) {
+  int v = 0;
+  size_t i;
+  if (n == 0 || n > 9) return -1;
+  for (i = 0; i < n; i++) { if (p[i] < '0' || p[i] > '9') return -1; v = v * 10 + (p[i] - '0'); }
+  return v;
+}
+
 static size_t data_key(char *buf, int idx) { return (size_t)sprintf(buf, "d/%03d", idx); }
 static size_t marker_key(char *buf, int id) { return (size_t)sprintf(buf, "m/%08d", id); }
 static uint64_t make_vid(int batch, int idx, int odd) {
@@ -241,13 +250,13 @@ static void verify_dir(const char *dir, const cfg_t *cfg, const char *variant, i
     ldb_slice_t k = ldb_iter_key(it), v = ldb_iter_value(it);
     const char *kp = k.data;
     if (k.size == 10 && kp[0] == 'm' && kp[1] == '/') {
-      int id = atoi(kp + 2);
+      int id = parse_num(kp + 2, k.size - 2);
       uint64_t idv = 0;
       if (v.size == 8) memcpy(&idv, v.data, 8);
       if (id >= 1 && id <= nbatches && idv == (uint64_t)id) S[id] = 1;
       else { unknown++; snprintf(umsg, sizeof(umsg), "marker %s", vh_esc(k.data, k.size)); }
     } else if (k.size == 5 && kp[0] == 'd' && kp[1] == '/') {
-      int idx = atoi(kp + 2);
+      int idx = parse_num(kp + 2, k.size - 2);
       if (idx >= 0 && idx < NKEYS) {
         act[idx].present = 1; act[idx].len = v.size; act[idx].vid = vh_value_vid(v.data, v.size);
         act[idx].ok = vh_check_value(v.data, v.size, act[idx].vid);
